@@ -1,6 +1,6 @@
 (* C06 - mux and demux are inverse; layers stay frame-aligned. *)
 From Coq Require Import List NArith ZArith Bool.
-From DV Require Import Outcome Bits BitIO Rpu Stream Order Mux MuxProofs.
+From DV Require Import Outcome Bits BitIO Rpu Stream Order Mux MuxProofs MuxAlign.
 Import ListNotations.
 Open Scope N_scope.
 
@@ -29,7 +29,33 @@ Theorem C06_el_queue_conserves : forall p o b q m q',
     (List.length q <= List.length q')%nat.
 Proof. exact el_process_concat. Qed.
 
+(* ALIGNMENT, for every batching of the EL reader: the muxer (BL frame buffer flushed on a change of
+   frame index; EL frame queue refilled on demand by a resumable reader that stops at the first
+   batch showing a later frame; front frame written only when a later frame is queued, or at the
+   end) writes exactly what the aligned specification writes, where the EL is just the list of its
+   frames (groups_of) and a counter: the w-th flushed BL frame is followed by the w-th EL frame,
+   complete, and the mismatch error is raised exactly when EL frames are left over.
+   Hypothesis: the per-NAL treatment (wrapping / RPU conversion) succeeds for every EL NAL. *)
+Theorem C06_mux_refines_aligned : forall p o bl batches all,
+  to_enals p o (assign_indices ps0 (concat batches)) = Ok all ->
+  mux p o bl batches = mux_aligned p o bl (concat batches).
+Proof. exact mux_refines_aligned. Qed.
+
+(* hence the output does not depend on where the EL file's read boundaries fall *)
+Theorem C06_batching_irrelevant : forall p o bl b1 b2 all,
+  concat b1 = concat b2 -> to_enals p o (assign_indices ps0 (concat b1)) = Ok all ->
+  mux p o bl b1 = mux p o bl b2.
+Proof. exact mux_batching_irrelevant. Qed.
+
+(* a queued frame that is not the last one can no longer change: the frames of a prefix of the EL
+   are frames of the whole EL, except possibly the last *)
+Theorem C06_el_frames_complete : forall C D (t : nat),
+  mono_from 0 (C ++ D) -> (S t < List.length (groups_of C))%nat ->
+  nth_error (groups_of (C ++ D)) t = nth_error (groups_of C) t.
+Proof. exact groups_complete. Qed.
+
 Print Assumptions C06_el_wrapped.
+Print Assumptions C06_mux_refines_aligned.
 Print Assumptions C06_el_queue_conserves.
 Print Assumptions C06_discard.
 Print Assumptions C06_rpu_passthrough.
